@@ -30,9 +30,11 @@ pub trait MapValidVec<T: IsNone>: Vec1View<T> {
         match n {
             n if n > 0 => Box::new(
                 std::iter::repeat_n(value, n_abs)
-                    .chain(self.titer().take(len - n_abs))
-                    .zip(self.titer())
-                    .map(|(a, b)| b - a)
+                    .chain(
+                        self.titer()
+                            .zip(self.titer().skip(n_abs))
+                            .map(|(a, b)| b - a),
+                    )
                     .to_trust(len),
             ),
             n if n < 0 => Box::new(
@@ -43,7 +45,11 @@ pub trait MapValidVec<T: IsNone>: Vec1View<T> {
                     .chain(std::iter::repeat_n(value, n_abs))
                     .to_trust(len),
             ),
-            _ => Box::new(std::iter::repeat_n(T::zero(), len).to_trust(len)),
+            _ => Box::new(
+                self.titer()
+                    .map(|v| if v.not_none() { T::zero() } else { v })
+                    .to_trust(len),
+            ),
         }
     }
 
@@ -95,7 +101,14 @@ pub trait MapValidVec<T: IsNone>: Vec1View<T> {
                     .chain(std::iter::repeat_n(f64::NAN, n_abs))
                     .to_trust(len),
             ),
-            _ => Box::new(std::iter::repeat_n(0., len).to_trust(len)),
+            _ => Box::new(
+                self.titer()
+                    .map(|v| {
+                        let v: f64 = v.cast();
+                        if v.not_none() && (v != 0.) { 0. } else { f64::NAN }
+                    })
+                    .to_trust(len),
+            ),
         }
     }
 
